@@ -573,7 +573,7 @@ class Engine:
 
     def divide(s, ta, tb, npf=False):
         """x / y as fresh d with d*y == x; divisor != 0 is a side obligation (numpy would give inf/nan)"""
-        ta, tb = toreal(ta), toreal(tb)
+        ta, tb = toreal(ta), z3.simplify(toreal(tb))
         if z3.is_rational_value(tb) or z3.is_int_value(tb):
             if tb.as_fraction() == 0:
                 raise PyRaise('ZeroDivisionError')
